@@ -34,7 +34,7 @@ func ZZ_C07_M4_WriteMonotone() {
 		maxN = 8
 	}
 	n := zzv.Choice("nkeys", maxN) + 1
-	e := zzNewFan(zzKindHwmon, false, false, true, true, 0, 1, 0) // no readable PWM: every setPwm writes
+	e := zzNewFan(zzKindHwmon, false, true, true, true, zzv.Int("devPwm"), 1, 0)
 	e.zzController(zzLoop(0), 0, n)
 	for i := 1; i < n; i++ {
 		zzv.Assume(e.vals[i-1] <= e.vals[i])
@@ -43,11 +43,10 @@ func ZZ_C07_M4_WriteMonotone() {
 	r2 := zzRange("r2", -50, 305)
 	zzv.Assume(r1 <= r2)
 	_ = e.c.setPwm(r1)
+	w1 := zzv.FilePeek(e.pwmPath)
 	_ = e.c.setPwm(r2)
-	zzv.Assert(len(e.spy.pwmWrites) == 2, "M4.both_requests_written")
-	if len(e.spy.pwmWrites) == 2 {
-		zzv.Record("w1", e.spy.pwmWrites[0])
-		zzv.Record("w2", e.spy.pwmWrites[1])
-		zzv.Assert(e.spy.pwmWrites[0] <= e.spy.pwmWrites[1], "M4.written_pwm_nondecreasing")
-	}
+	w2 := zzv.FilePeek(e.pwmPath)
+	zzv.Record("w1", w1)
+	zzv.Record("w2", w2)
+	zzv.Assert(w1 <= w2, "M4.written_pwm_nondecreasing")
 }
